@@ -63,6 +63,10 @@ Fixpoint run_evs (prio : list vec -> list Q) (rf max_t : Q) (bs : list bracket) 
 Definition prio_case := (list nat * nat * list Q)%type.
 Definition chk_prio (c : prio_case) : bool :=
   let '(sorted, n, impl) := c in list_eqb Qeqb (priority_of_sorted sorted n) impl.
+(* sign normalisation: modes (true = min), reported values, the row the implementation handed to the priority *)
+Definition sign_case := (list bool * vec * vec)%type.
+Definition chk_sign (c : sign_case) : bool :=
+  let '(modes, raw, impl) := c in list_eqb xeqb (metric_dict modes raw) impl.
 Definition seq_case := (Q * Q * list bracket * prio_tbl * list ev)%type.
 Definition chk_seq (c : seq_case) : bool :=
   let '(rf, max_t, bs, tbl, evs) := c in run_evs (prio_of tbl) rf max_t bs evs.
@@ -309,6 +313,7 @@ def moasha_sequences(ctx, replay):
         specs = [gen_moasha_case(rng) for _ in range(ctx.n(150, 3000))]
     cases, meta = [], []
     pcases, pmeta = [], []
+    gcases, gmeta = [], []
     for spec in specs:
         nmet = len(spec["metrics"])
         inner = {"nd": lambda: NonDominatedPriority(), "default": lambda: NonDominatedPriority(),
@@ -393,6 +398,11 @@ def moasha_sequences(ctx, replay):
                 if viol is None and (list(mat[-1]) != signed or any(tuple(r) not in reported_vectors for r in mat)):
                     viol = dict(event=[t, it, vals], matrix=mat, own_signed=signed, decision=dec,
                                 expected="objective vectors in the order of `metrics`", kind="matrix")
+                if spec["prio"] != "default" and len(gcases) < 1500:
+                    # the row the implementation handed to the priority for this report vs the model's sign rule
+                    gcases.append("(%s, %s, %s)" % (lst([blit(sg > 0) for sg in signs]), lst([xql(v) for v in vals]),
+                                                    lst([xql(v) for v in mat[-1]])))
+                    gmeta.append(dict(kind="moasha", spec=spec, event=[t, it, vals], impl_row=mat[-1]))
                 if len(mat) >= 2:
                     nontriv = True
                 # checker on the implementation decision: 'continue exactly when the trial's priority rank
@@ -463,6 +473,11 @@ def moasha_sequences(ctx, replay):
         tbl = lst(["(%s, %s)" % (vecs(m), qlist(p)) for m, p in rec.calls])
         cases.append("(%s, %s, %s, %s, %s)" % (q(float(spec["rf"])), q(float(spec["max_t"])), lst(brs), tbl, lst(ev_terms)))
         meta.append(dict(kind="moasha", spec=spec, impl_decisions=decisions))
+    if gcases:
+        ctx.h("sign_cases", "n", len(gcases))
+        for i in ctx.coq_bad_cases("sign", IMPORTS, PRELUDE, "chk_sign", gcases):
+            ctx.violation("correspondence", "model metric_dict (per-metric sign) differs from the row MOASHA ranks", case=gmeta[i],
+                          failing_input=False, broken="correspondence chk_sign (model/Pareto.v metric_dict)")
     if pcases:
         ctx.h("priority_cases", "n", len(pcases))
         for i in ctx.coq_bad_cases("prio", IMPORTS, PRELUDE, "chk_prio", pcases):
